@@ -337,7 +337,7 @@ def pred(t, x, ctx, depth=0):
         return z3.And(PV.is_PTuple(x), z3.Length(items) == len(t) - 1,
                       *[pred(a, items[i], ctx, depth) for i, a in enumerate(t[1:])])
     if k in ('list', 'list1'):
-        items = z3.simplify(PV.litems(x))
+        items = pv.ssimp(PV.litems(x))
         conj = [PV.is_PList(x)]
         # a goal about  xs ++ [y]  is decomposed structurally (no induction needed, no nth-of-concat reasoning)
         parts = []
